@@ -8,6 +8,7 @@ from __future__ import annotations
 
 import fractions
 import math
+import os
 
 import numpy as np
 import z3
@@ -83,6 +84,22 @@ def _simp(e):
     return z3.simplify(e, som=False)
 
 
+def _small(e, limit):
+    """True if the term DAG of e has fewer than `limit` nodes."""
+    seen = set()
+    stack = [e]
+    while stack:
+        t = stack.pop()
+        i = t.get_id()
+        if i in seen:
+            continue
+        seen.add(i)
+        if len(seen) >= limit:
+            return False
+        stack.extend(t.children())
+    return True
+
+
 class SBool:
     __slots__ = ("e",)
 
@@ -97,6 +114,14 @@ class SBool:
             return True
         if z3.is_false(e):
             return False
+        if _small(e, 400):
+            # polynomial identities (e.g. a discriminant that cancels identically) decide the test
+            # without a solver call once expanded into a sum of monomials
+            e2 = z3.simplify(e, som=True)
+            if z3.is_true(e2):
+                return True
+            if z3.is_false(e2):
+                return False
         return cur().branch(e)
 
     @staticmethod
@@ -551,7 +576,46 @@ def sqrt_term(arg: z3.ArithRef) -> z3.ArithRef:
         r = _exact_sqrt(c)
         if r is not None:
             return rv(r)
+    t = _square_root_of(arg)
+    if t is not None:
+        # sqrt(t*t) = |t| exactly, no fresh variable needed; resolve the sign on the path if it is implied
+        sg = cur().sign_of(t)
+        if sg > 0:
+            return t
+        if sg < 0:
+            return z3.simplify(-t)
+        return z3.If(t >= 0, t, -t)
     return cur().sqrt_var(arg)
+
+
+def _square_root_of(e):
+    """t if e is syntactically t*t or t**2 (possibly times a constant that is a perfect square)."""
+    if z3.is_app(e):
+        k = e.decl().kind()
+        if k == z3.Z3_OP_POWER and e.num_args() == 2:
+            c = _const_value(e.arg(1))
+            if c == 2:
+                return e.arg(0)
+        if k == z3.Z3_OP_MUL:
+            args = [e.arg(i) for i in range(e.num_args())]
+            coef = fractions.Fraction(1)
+            rest = []
+            for a in args:
+                c = _const_value(a)
+                if c is not None:
+                    coef *= fractions.Fraction(c)
+                else:
+                    rest.append(a)
+            rc = _exact_sqrt(coef) if coef > 0 else None
+            if rc is None:
+                return None
+            if len(rest) == 2 and z3.eq(rest[0], rest[1]):
+                return rv(rc) * rest[0]
+            if len(rest) == 1:
+                t = _square_root_of(rest[0])
+                if t is not None:
+                    return rv(rc) * t
+    return None
 
 
 # ------------------------------------------------------------------ model evaluation
